@@ -109,6 +109,14 @@ fn cmd_script(a: &HashMap<String, String>) -> i32 {
 }
 
 fn main() {
+    // everything runs on a thread with the stack size spawned threads and async runtime workers get by default
+    // (2 MiB), so that unbounded recursion in the library shows up as it would in an application
+    let h = std::thread::Builder::new().stack_size(2 << 20).spawn(real_main).expect("spawn");
+    let code = h.join().unwrap_or(101);
+    std::process::exit(code);
+}
+
+fn real_main() -> i32 {
     let args: Vec<String> = std::env::args().collect();
     if std::env::var("PVH_LOUD").is_err() {
         sim::install_quiet_panic_hook();
@@ -142,5 +150,5 @@ fn main() {
             2
         }
     };
-    std::process::exit(code);
+    code
 }
